@@ -212,16 +212,18 @@ PROPS = {
                      "re-parsing on the printed text with JSX disabled"],
     ),
     "C08": dict(
-        mc=[dict(module="MC_C07")] + POOL, post=pool_post("C08", 4000, 60000), judge="Judge_C08", want=["det"], node=False,
+        mc=[dict(module="MC_C07"), dict(module="MC_C17"), dict(module="MC_C16"), dict(module="MC_C18"), dict(module="MC_C20", tiers=("thorough",))] + POOL, post=pool_post("C08", 4000, 60000), judge="Judge_C08", want=["det"], node=False,
         rule="adversarial modules (every directive name x every JSX attribute-value kind on element and component, deep nesting, "
-             "the unusual-forms grid) under the option sets, plus a sample of the pooled modules; each is run twice in one "
+             "self- and mutually-referential aliases and interfaces through alias / extends / intersection / utility / indexed "
+             "access / emits, empty runtime types, odd defineComponent call shapes, the unusual-forms grid and the type-expression "
+             "pools of C16-C18) under the option sets, plus a sample of the pooled modules; each is run twice in one "
              "process and once more in a fresh process; panics are caught, aborts and timeouts of the driver process are data",
         exhaustive=dict(quick=False, thorough=False),
         assumptions=["'does not loop' is observed as 'returns within 20 s' (median < 1 ms)",
                      "8 MB stack for the transform thread; deep nesting is bounded by the cfg (Depths)"],
     ),
     "C09": dict(
-        mc=[dict(module="MC_C07")] + POOL, post=c09_post, judge="Judge_C09", want=["frame", "idem"], node=False,
+        mc=[dict(module="MC_C07"), dict(module="MC_C20"), dict(module="MC_C16")] + POOL, post=c09_post, judge="Judge_C09", want=["frame", "idem"], node=False,
         rule="pooled generated modules (JSX embedded in assignments, functions, arrows, classes, blocks, default parameters; "
              "the unusual-forms grid) — for each: ordered embedding of the fingerprints of every maximal JSX-free input "
              "statement/expression into the fingerprints of the output, unchanged-ness of JSX-free modules against the same "
@@ -274,6 +276,37 @@ PROPS = {
         exhaustive=dict(quick=True, thorough=True),
         assumptions=["undefined/void/never are not in the atom table (the property does not list them)",
                      "a prop option without any `type` never rejects and is accepted"],
+    ),
+    "C19": dict(
+        mc=[dict(module="MC_C19")], judge="Judge_C19", want=["js"],
+        rule="4 event-name sets (incl. names with ':' and '-') x encodings (function type, parenthesised, union of function types, "
+             "call-signature literal with one or several signatures, property syntax, alias of each, interface with call signatures / "
+             "properties, literal-union alias and alias chain as the parameter type; every split into extends / intersection / union "
+             "/ union-with-alias / merged interface declarations) x placement; plus the unannotated case",
+        exhaustive=dict(quick=True, thorough=True),
+        assumptions=[],
+    ),
+    "C18": dict(
+        mc=[dict(module="MC_C18")], judge="Judge_C18", want=["js"],
+        rule="prop map {a?: string, b?: number, cb?: () => void, 'q-k'?: string, z?: boolean} x default object literals: per key "
+             "none / literal / expression / shorthand / getter / method / async method / function value / quoted and "
+             "computed-literal key spellings, with and without an extra key (full product), plus the dynamic forms identifier, "
+             "call, spread and computed key; the runtime observer resolves every default with Vue's rule (function defaults are "
+             "called as factories unless the prop type is Function) and calls Function-typed defaults once",
+        exhaustive=dict(quick=True, thorough=True),
+        assumptions=["async methods: only that the default is a function is checked"],
+    ),
+    "C20": dict(
+        mc=[dict(module="MC_C20")], judge="Judge_C20", want=["js"],
+        rule="19 call shapes (no options; {}; literal with props / emits / name, each also with a quoted key; all three; another "
+             "option; literals containing a spread before / after / alone; spread of an empty object; identifier and call as "
+             "options; spread argument list; object as first argument) x 7 provenances of the callee (vue named import, aliased "
+             "vue import, namespace member, local function, parameter shadowing the import, other module, aliased vue import "
+             "beside another module's defineComponent) x 7 declaration kinds x resolveType on/off — full product; the mock "
+             "defineComponent records what Vue effectively receives; non-trivial = resolveType on",
+        exhaustive=dict(quick=True, thorough=True),
+        assumptions=["a vue import under another local name: augmented or not are both accepted",
+                     "name inference when the first argument is not a function: either accepted"],
     ),
     "C02": dict(
         mc=[dict(module="MC_C02")], judge="Judge_C02", want=["js"],
